@@ -192,6 +192,7 @@ func (e *Engine) verifyFunc(pkg *packages.Package, decl *ast.FuncDecl, profile s
 		e.funcLemmas[fc.name] = c.Lemmas
 	}
 	e.onStore = fc.storeHook
+	e.onPredStore = fc.predStoreHook
 	if e.funcFacts == nil {
 		e.funcFacts = map[string][]string{}
 	}
@@ -209,6 +210,23 @@ func (e *Engine) verifyFunc(pkg *packages.Package, decl *ast.FuncDecl, profile s
 		r := smtSym(fmt.Sprintf("r!b%d", e.nfresh))
 		e.funcFacts[fc.name] = append(e.funcFacts[fc.name],
 			arr+"|(forall (("+r+" Int)) (! (=> (< "+r+" "+fc.entryAlloc+") (and (<= 0 (select "+arr+" "+r+")) (< (select "+arr+" "+r+") "+fc.entryAlloc+"))) :pattern ((select "+arr+" "+r+"))))")
+	}
+	// ... and the elements of slices stored in entry objects only refer to objects that exist at entry
+	// (upper bound only: element slots beyond the length carry no sign information)
+	e.onBaseSliceRefArray = func(arr string) {
+		if fc.entry == nil && fc.entryAlloc == "" {
+			return
+		}
+		if wfSeen["sl:"+arr] {
+			return
+		}
+		wfSeen["sl:"+arr] = true
+		e.nfresh++
+		r := smtSym(fmt.Sprintf("r!b%d", e.nfresh))
+		e.nfresh++
+		j := smtSym(fmt.Sprintf("j!b%d", e.nfresh))
+		e.funcFacts[fc.name] = append(e.funcFacts[fc.name],
+			arr+"|(forall (("+r+" Int) ("+j+" Int)) (! (=> (< "+r+" "+fc.entryAlloc+") (< (select (select "+arr+" "+r+") "+j+") "+fc.entryAlloc+")) :pattern ((select (select "+arr+" "+r+") "+j+"))))")
 	}
 	start := len(e.obls)
 	defer func() {
@@ -412,6 +430,27 @@ func (fc *FuncCtx) entryState() *State {
 	for i := 0; i < fc.sig.Params().Len(); i++ {
 		bind(fc.sig.Params().At(i))
 	}
+	// pointer parameters to unrelated struct types denote different objects (Go's type safety): two non-nil
+	// pointers *T and *U can only be equal if one struct is (transitively) the first embedded field of the other
+	var ptrParams []*types.Var
+	if r := fc.sig.Recv(); r != nil {
+		ptrParams = append(ptrParams, r)
+	}
+	for i := 0; i < fc.sig.Params().Len(); i++ {
+		ptrParams = append(ptrParams, fc.sig.Params().At(i))
+	}
+	for i := 0; i < len(ptrParams); i++ {
+		for j := i + 1; j < len(ptrParams); j++ {
+			a, b := ptrParams[i], ptrParams[j]
+			va, vb := st.vars[a], st.vars[b]
+			if va == nil || vb == nil || va.Sh.Kind != KRef || vb.Sh.Kind != KRef {
+				continue
+			}
+			if unrelatedPointees(a.Type(), b.Type()) {
+				st.assume(or(eq(va.T(), "0"), not(eq(va.T(), vb.T()))))
+			}
+		}
+	}
 	for _, r := range fc.results {
 		if r.Name() != "" && r.Name() != "_" {
 			fc.declareVar(st, r, e.zeroValue(e.shapeOf(r.Type())))
@@ -571,7 +610,13 @@ func (fc *FuncCtx) specEnv(st *State, old *State, pos token.Pos, names map[strin
 }
 
 func (fc *FuncCtx) globalVar(o *types.Var) *Value {
-	e := fc.e
+	return fc.e.globalValue(o)
+}
+
+// globalValue is the symbolic value of a package-level variable: one named constant per leaf
+// (its initialiser is not executed; package-level variables are treated as never reassigned,
+// which is recorded as an assumption where a contract relies on one).
+func (e *Engine) globalValue(o *types.Var) *Value {
 	sh := e.shapeOf(o.Type())
 	sorts := e.leafSorts(sh)
 	l := make([]string, len(sorts))
@@ -632,7 +677,9 @@ func (fc *FuncCtx) runGhostStmt(st *State, gs *GhostStmt, pos token.Pos, anchor 
 			lbl = shortHash(gs.Src)
 		}
 		fc.oblige(st, "ghost-assert", anchor+":"+lbl, pos, env.evalBool(gs.Value), gs.Tags, gs.Src)
-		st.assume(env.evalBool(gs.Value))
+		if !e.noAssume[fc.name+"/ghost-assert:"+anchor+":"+lbl] {
+			st.assume(env.evalBool(gs.Value))
+		}
 		return
 	case "assume":
 		e.assumed["ghost assume in "+fc.name+": "+gs.Src] = true
@@ -662,6 +709,14 @@ func (fc *FuncCtx) runGhostStmt(st *State, gs *GhostStmt, pos token.Pos, anchor 
 	}
 	if len(val.L) != len(cur.L) {
 		specFail("ghost assignment %s: shape mismatch %s vs %s", gs.Name, val.Sh, cur.Sh)
+	}
+	// a boolean ghost variable assigned a quantified formula is given a name: later clauses mention
+	// the name, and the defining equation is one fact (otherwise the formula is copied into every use)
+	if cur.Sh.Kind == KBool && len(val.L) == 1 && (strings.Contains(val.L[0], "(forall ") || strings.Contains(val.L[0], "(exists ")) {
+		c := e.fresh("g."+gs.Name, "Bool")
+		st.assume(eq(c, val.L[0]))
+		st.ghost[gs.Name] = scalar(cur.Sh, c)
+		return
 	}
 	st.ghost[gs.Name] = &Value{Sh: cur.Sh, L: val.L}
 }
@@ -1386,4 +1441,36 @@ func (fc *FuncCtx) execSelect(x *ast.SelectStmt, st *State) *State {
 		return nil
 	}
 	return fc.e.merge(outs)
+}
+
+// unrelatedPointees reports whether *T and *U cannot alias: both point to named struct types, the types
+// differ, and neither struct embeds (transitively, anywhere) a struct of the other type.
+func unrelatedPointees(t, u types.Type) bool {
+	pt, ok1 := types.Unalias(t).Underlying().(*types.Pointer)
+	pu, ok2 := types.Unalias(u).Underlying().(*types.Pointer)
+	if !ok1 || !ok2 {
+		return false
+	}
+	st, ok1 := pt.Elem().Underlying().(*types.Struct)
+	su, ok2 := pu.Elem().Underlying().(*types.Struct)
+	if !ok1 || !ok2 || types.Identical(pt.Elem(), pu.Elem()) {
+		return false
+	}
+	var contains func(outer *types.Struct, inner types.Type, depth int) bool
+	contains = func(outer *types.Struct, inner types.Type, depth int) bool {
+		if depth > 6 {
+			return true // be conservative
+		}
+		for i := 0; i < outer.NumFields(); i++ {
+			ft := outer.Field(i).Type()
+			if types.Identical(ft, inner) {
+				return true
+			}
+			if fs, ok := ft.Underlying().(*types.Struct); ok && contains(fs, inner, depth+1) {
+				return true
+			}
+		}
+		return false
+	}
+	return !contains(st, pu.Elem(), 0) && !contains(su, pt.Elem(), 0)
 }
